@@ -57,3 +57,29 @@ def build(m):
                                             ensures=KEEP, modifies=MOD, prop=['C01'], options=dict(RS)))
         method('render_table', Contract('%s:%s.render_table' % (mod, pyc), [('self', R), ('token', TOK)], returns=STR,
                                         ensures=KEEP, modifies=MOD, prop=['C01'], options=dict(RS)))
+
+
+def build2(m):
+    """HtmlRenderer.render_list (C02 / C03 / C12): <ol> exactly for ordered lists - also one that starts
+    at 0 -, the start attribute exactly when the start number is not 1, the tight/loose flag pushed for
+    the items is `not token.loose`, and the suppress stack is balanced."""
+    HMOD = 'mistletoe.html_renderer'
+    m.namespaces.setdefault(HMOD, {})
+    TOK = TRef('HListTok')
+    m.classes['HListTok'] = {'children': TList(TRef('RTok')), 'start': TOpt(INT), 'loose': BOOL}
+    R = TRef('HtmlR')
+    m.classes['HtmlR'] = {'_suppress_ptag_stack': TList(BOOL)}
+    m.methods[('HtmlR', 'render')] = 'protocol:HtmlRenderer.render'
+    m.add(Contract('protocol:HtmlRenderer.render', [('self', R), ('token', TRef('RTok'))], returns=STR, trusted=True, pure=True,
+                   note='dynamic dispatch to a render_* method: returns a string, suppress stack balanced (induction '
+                        'hypothesis over the token tree; render_list / render_quote are the methods that push and pop)'))
+    m.add(Contract(HMOD + ':HtmlRenderer.render_list', [('self', R), ('token', TOK)], returns=STR,
+                   ensures=[("result.startswith('<ol') == (not is_none(token.start))", ['C02', 'C03', 'C12']),
+                            ("implies(is_none(token.start), result.startswith('<ul>\\n'))", ['C02', 'C03']),
+                            ("implies(not is_none(token.start) and some(token.start) == 1, result.startswith('<ol>\\n'))", ['C02', 'C03']),
+                            ("implies(not is_none(token.start) and some(token.start) != 1, result.startswith('<ol start=\"'))", ['C02', 'C03']),
+                            ("result.endswith('</ol>') or result.endswith('</ul>')", 'C08')],
+                   # C03: the items of a tight list suppress their <p> tags: the flag pushed is `not loose`
+                   ghost_after={'self._suppress_ptag_stack.append(not token.loose)': [
+                       ('__assert__', ('self._suppress_ptag_stack[len(self._suppress_ptag_stack) - 1] == (not token.loose)', ['C03', 'C02']))]},
+                   modifies=['self._suppress_ptag_stack'], options={'restores': True}, prop=['C02', 'C03', 'C08']))
